@@ -56,11 +56,13 @@ Definition write_audited (w : string * string * string) : bool :=
   || (String.eqb pkg "stdlib/os" && String.eqb fn "initGlobals").                            (* called from init only *)
 Definition stateful_audited (v : string * string * string) : bool :=
   let '(pkg, name, ty) := v in
-  (String.eqb pkg "vm" && String.eqb name "printExprFor" && String.eqb ty "sync.Map").       (* keyed by context, safe for concurrent use *)
+  (String.eqb pkg "vm" && String.eqb name "printExprFor" && String.eqb ty "sync.Map")        (* keyed by context, safe for concurrent use *)
+  || (String.eqb pkg "stdlib" && String.eqb name "moduleCodeMu" && String.eqb ty "sync.Mutex"). (* guards the one-time compilation of a registered module's code; holds no data *)
 Definition call_audited (c : string * string * string) : bool :=
   let '(pkg, v, m) := c in
   (String.eqb pkg "py" && (String.eqb v "gRuntime" || String.eqb v "gRuntime.mu"))           (* module registry under its RWMutex *)
-  || (String.eqb pkg "vm" && String.eqb v "printExprFor").
+  || (String.eqb pkg "vm" && String.eqb v "printExprFor")
+  || (String.eqb pkg "stdlib" && String.eqb v "moduleCodeMu").
 Theorem C08_process_wide_state_is_audited :
   forallb write_audited pkg_writes = true /\ forallb stateful_audited exec_stateful_vars = true /\
   forallb call_audited exec_pkg_var_method_calls = true.
